@@ -8,17 +8,23 @@
 (***************************************************************************)
 EXTENDS Integers, Sequences, FiniteSets, TLC, Json
 
-CONSTANT NTokens
+CONSTANTS NTokens, NBytes
 
 \* what has just been typed after the last complete token
 Pendings == {"nothing", "dot", "colon-colon", "partial-identifier", "dot-partial", "open-paren", "open-brace", "open-string", "multi-byte", "backslashes"}
 \* where the cursor is
 Cursors == {"end", "before-pending", "start", "middle", "past-line-end", "past-text-end", "inside-multi-byte"}
 
-VARIABLES cut, pending, cursor
-vars == <<cut, pending, cursor>>
-Init == cut \in 0..NTokens /\ pending \in Pendings /\ cursor \in Cursors
-        /\ (cursor = "inside-multi-byte" => pending = "multi-byte")
+\* the unit of `cut`: whole tokens typed (with something unfinished after them), or single keystrokes: the first `cut`
+\* bytes of the text (a cut inside a multi-byte character is the byte sequence an editor never sends; the driver moves
+\* it to the character boundary), which is where a token is half typed: an unterminated string or character literal, one
+\* of the two backslashes of a multi-line string line, half an operator, half a keyword
+Units == {"token", "byte"}
+VARIABLES unit, cut, pending, cursor
+vars == <<unit, cut, pending, cursor>>
+Init == \/ /\ unit = "token" /\ cut \in 0..NTokens /\ pending \in Pendings /\ cursor \in Cursors
+           /\ (cursor = "inside-multi-byte" => pending = "multi-byte")
+        \/ /\ unit = "byte" /\ cut \in 0..NBytes /\ pending = "nothing" /\ cursor \in {"end", "start", "middle"}
 Next == UNCHANGED vars
-Emit == PrintT(<<"EDIT", ToJson([cut |-> cut, pending |-> pending, cursor |-> cursor])>>)
+Emit == PrintT(<<"EDIT", ToJson([unit |-> unit, cut |-> cut, pending |-> pending, cursor |-> cursor])>>)
 =============================================================================
